@@ -29,6 +29,9 @@ type Config struct {
 	Deadline   time.Time
 	KeepPerID  int
 	OnlyPrefix []int // replay exactly one path
+	ShortMs    int    // primary solver's first-stage timeout
+	Fallback   string // fallback solver kind ("" = none)
+	ModelGuide bool
 }
 
 type Obligation struct {
@@ -64,6 +67,8 @@ type Violation struct {
 	Sched   []int
 	Notes   []string
 	KnownOn []string
+	UF      map[string][][2]uint64
+	Choices []int
 }
 
 type PathSample struct {
@@ -104,6 +109,7 @@ type Explorer struct {
 	Truncated bool
 	Errors    []string
 	SolverErr []string
+	Fallbacks int
 }
 
 func NewExplorer(p *Program, entry *ssa.Function, cfg Config) *Explorer {
@@ -146,6 +152,12 @@ func (e *Explorer) addViolation(v *Violation) {
 
 func (e *Explorer) noteUnknown(c *Term) {
 	e.noteUnknownMsg("branch feasibility")
+}
+
+func (e *Explorer) noteFallback() {
+	e.mu.Lock()
+	e.Fallbacks++
+	e.mu.Unlock()
 }
 
 func (e *Explorer) noteUnknownMsg(m string) {
@@ -203,8 +215,22 @@ func (e *Explorer) worker(i int) {
 		e.mu.Unlock()
 		return
 	}
+	var fbs []*Solver
+	for _, kind := range strings.Split(e.Cfg.Fallback, ",") {
+		if kind == "" || kind == "none" {
+			continue
+		}
+		fb, err := NewSolver(kind, e.Cfg.TimeoutMs, strings.Replace(logp, ".smt2", ".fb-"+kind+".smt2", 1))
+		if err == nil {
+			fbs = append(fbs, fb)
+		}
+	}
 	defer func() {
 		e.mu.Lock()
+		for _, fb := range fbs {
+			e.SolverT += fb.Time
+			fb.Close()
+		}
 		for k := 0; k < 3; k++ {
 			e.Queries[k] += solver.Queries[k]
 		}
@@ -241,7 +267,7 @@ func (e *Explorer) worker(i int) {
 		e.Paths++
 		e.mu.Unlock()
 
-		e.runPath(solver, prefix)
+		e.runPath(solver, fbs, prefix)
 
 		e.mu.Lock()
 		e.active--
@@ -266,8 +292,9 @@ func (e *Explorer) newState(solver *Solver) *State {
 	return s
 }
 
-func (e *Explorer) runPath(solver *Solver, prefix []int) {
+func (e *Explorer) runPath(solver *Solver, fbs []*Solver, prefix []int) {
 	s := e.newState(solver)
+	s.fallbacks = fbs
 	s.forced = prefix
 	solver.Push()
 	status, msg := "ok", ""
@@ -353,15 +380,19 @@ func (s *State) runInit() {
 // Summary lines for logs.
 func (e *Explorer) Summary() string {
 	var sb strings.Builder
-	fmt.Fprintf(&sb, "harness %s: paths=%d steps=%d queries(unsat/sat/unknown)=%d/%d/%d solver=%.1fs depth=%d\n",
-		e.Entry.Name(), e.Paths, e.Steps, e.Queries[0], e.Queries[1], e.Queries[2], e.SolverT.Seconds(), e.MaxDepth)
+	fmt.Fprintf(&sb, "harness %s: paths=%d steps=%d queries(unsat/sat/unknown)=%d/%d/%d fallbacks=%d solver=%.1fs depth=%d\n",
+		e.Entry.Name(), e.Paths, e.Steps, e.Queries[0], e.Queries[1], e.Queries[2], e.Fallbacks, e.SolverT.Seconds(), e.MaxDepth)
 	var ks []string
 	for k := range e.Status {
 		ks = append(ks, k)
 	}
 	sort.Strings(ks)
 	for _, k := range ks {
-		fmt.Fprintf(&sb, "  status %-12s %6d  %s\n", k, e.Status[k], firstLine(e.StatusMsg[k]))
+		msg := firstLine(e.StatusMsg[k])
+		if k == "engine-error" {
+			msg = e.StatusMsg[k]
+		}
+		fmt.Fprintf(&sb, "  status %-12s %6d  %s\n", k, e.Status[k], msg)
 	}
 	ks = ks[:0]
 	for k := range e.Obls {
